@@ -311,15 +311,16 @@ class Real:
                 snap = dump(top)
                 if c == 'push':
                     new = top.push() if isinstance(top, DemoStorage) else DemoStorage(base=top)
-                elif t[1] in ('cfgmapping', 'cfgfile') and not isinstance(top, DemoStorage) \
-                        and isinstance(top, FileStorage):
+                elif t[1] in ('wcfgmapping', 'wcfgfile'):
+                    if not isinstance(top, FileStorage):
+                        raise InfraError('whole-config demo storage needs a FileStorage base')
                     # the whole demo storage from a configuration section over the (closed and reopened) base file
                     import ZODB.config
                     path, bd = top._file_name, getattr(top, 'blob_dir', None)
                     top.close()
                     self.n += 1
                     chg = ('<mappingstorage changes>\n name cc%d\n </mappingstorage>' % self.n) \
-                        if t[1] == 'cfgmapping' else \
+                        if t[1] == 'wcfgmapping' else \
                         ('<filestorage changes>\n path %s\n create true\n </filestorage>'
                          % os.path.join(self.dir, 's%d.fs' % self.n))
                     new = ZODB.config.storageFromString(
@@ -500,7 +501,7 @@ class Level:
         self.txn = None          # (x, tid, {oid: data})
         self.packed = 0
         self.undo_tids = []
-        self.can_undo = kind in ('file', 'blob', 'hexfile', 'cfgfile')
+        self.can_undo = kind in ('file', 'blob', 'hexfile', 'cfgfile', 'wcfgfile')
         self.file_backed = self.can_undo
 
 
@@ -1101,6 +1102,9 @@ class Gen:
         for level in range(depth):
             ck = rng.choice(['mapping', 'file', 'blob', 'temp', 'temp', 'hexmapping', 'hexfile', 'cfgmapping', 'cfgfile'])
             first = rng.choice([rng.choice(self.pool), 40 + level, 60 + rng.randrange(5)])
+            if ck.startswith('cfg') and level == 0 and bk in ('file', 'blob') and not self.w.top.packed \
+                    and rng.random() < 0.7:
+                ck = 'w' + ck           # the whole <demostorage> section over the closed and reopened base file
             if ck == 'temp':
                 self.emit('push %d' % first)
             else:
